@@ -116,3 +116,62 @@ pub fn disk_get(f: &TableFile, offset: usize) -> u8 {
 	}
 }
 
+
+// =====================================================================================
+// C12.F: TableFile::flush (the real function; everywhere else it is a stub) makes the whole mapping durable:
+// one synchronous msync covering [0, map length), whatever the table's capacity counter says, and a failing msync is
+// reported. The memmap2 entry points are replaced by recorders (msync is FFI); the map is fabricated over a static
+// buffer (MmapMut is {ptr, len}; the harness asserts the layout through len()).
+// =====================================================================================
+pub static mut MS_N: usize = 0;
+pub static mut MS_SYNC: bool = false;
+pub static mut MS_OFF: usize = 0;
+pub static mut MS_LEN: usize = 0;
+pub static mut MS_FAIL: bool = false;
+fn ms(sync: bool, off: usize, len: usize) -> std::io::Result<()> {
+	unsafe {
+		MS_N += 1; MS_SYNC = sync; MS_OFF = off; MS_LEN = len;
+		if MS_FAIL { Err(std::io::Error::from(std::io::ErrorKind::Other)) } else { Ok(()) }
+	}
+}
+pub fn stub_mm_flush(m: &memmap2::MmapMut) -> std::io::Result<()> { ms(true, 0, m.len()) }
+pub fn stub_mm_flush_async(m: &memmap2::MmapMut) -> std::io::Result<()> { ms(false, 0, m.len()) }
+pub fn stub_mm_flush_range(_m: &memmap2::MmapMut, offset: usize, len: usize) -> std::io::Result<()> { ms(true, offset, len) }
+pub fn stub_mm_flush_async_range(_m: &memmap2::MmapMut, offset: usize, len: usize) -> std::io::Result<()> { ms(false, offset, len) }
+#[repr(C)]
+struct RawMap { ptr: *mut u8, len: usize }
+pub static mut MAP_BUF: [u8; 64] = [0u8; 64];
+
+crate::verif_env! {
+#[kani::proof]
+#[kani::unwind(4)]
+#[kani::stub(memmap2::MmapMut::flush, stub_mm_flush)]
+#[kani::stub(memmap2::MmapMut::flush_async, stub_mm_flush_async)]
+#[kani::stub(memmap2::MmapMut::flush_range, stub_mm_flush_range)]
+#[kani::stub(memmap2::MmapMut::flush_async_range, stub_mm_flush_async_range)]
+#[kani::stub(<std::os::fd::OwnedFd as std::ops::Drop>::drop, crate::verif_common::fd_drop_noop)]
+fn c12_f1_table_flush_syncs_whole_map() {
+	let len: usize = kani::any();
+	kani::assume(len >= 1 && len <= 64);
+	let map: memmap2::MmapMut = unsafe { std::mem::transmute(RawMap { ptr: MAP_BUF.as_mut_ptr(), len }) };
+	assert!(map.len() == len, "harness: MmapMut layout is {{ptr, len}}");
+	let cap: u64 = kani::any();
+	let present: bool = kani::any();
+	unsafe { MS_N = 0; MS_FAIL = kani::any(); }
+	let f = TableFile { map: RwLock::new(if present { Some((map, crate::verif_common::raw_file(7))) } else { std::mem::forget(map); None }),
+		path: std::path::PathBuf::new(), capacity: AtomicU64::new(cap), id: TableId::new(0, 0) };
+	let r = f.flush();
+	unsafe {
+		if present {
+			assert!(MS_N == 1 && MS_SYNC, "C12.F a table flush is one synchronous msync");
+			assert!(MS_OFF == 0 && MS_LEN >= len, "C12.F the msync covers every byte of the table file (in this harness the whole mapping is file-backed; the capacity counter counts entries, not bytes)");
+			assert!(r.is_err() == MS_FAIL, "C12.F a failing msync is reported to the caller");
+		} else {
+			assert!(MS_N == 0 && r.is_ok(), "C12.F a table without file has nothing to flush");
+		}
+	}
+	kani::cover!(present && unsafe { MS_FAIL });
+	kani::cover!(present && !unsafe { MS_FAIL } && cap < 2);
+	std::mem::forget(r); std::mem::forget(f);
+}
+}
